@@ -159,6 +159,51 @@ def oracle(ctx):
                 break
     if meta:
         res.samples.append(dict(kind='oracle-case', exec_line=unhx(meta[0][2]), intended_tail=meta[0][3]))
+    # the line as it is *written*: a normal run and a dry run of the real binary, the service text read the way systemd reads it (a
+    # backslash at the end of a line continues it, joined with one blank) and split — for command lines of every length, the long ones
+    # with blanks inside quoted arguments at every position
+    import e2e, os, shutil
+    lcases = []
+    for n in ([40, 900, 1990, 2040, 3600, 9000] if not ctx.thorough else [40, 500, 1000, 1500, 1990, 2000, 2040, 2100, 3600, 4100, 8200, 9000, 70000]):
+        for shift in range(3):
+            sentence = ' '.join('w%04d' % i for i in range(n // 6)) + 'x' * shift
+            lcases.append(sentence)
+
+    def run_long(sentence):
+        base = e2e.fresh_dir()
+        e2e.write_tree(base, {'src/long.container': f'[Container]\nImage=localhost/i\nExec=echo "{sentence}" tail "a b"\n'})
+        out = os.path.join(base, 'out')
+        rc1, so, se = e2e.run_binary(['--dry-run', '--no-kmsg-log', out], os.path.join(base, 'src'))
+        rc2, so2, se2 = e2e.run_binary(['--no-kmsg-log', out], os.path.join(base, 'src'))
+        try:
+            written = open(os.path.join(out, 'long.service'), encoding='utf-8').read()
+        except OSError:
+            written = ''
+        shutil.rmtree(base, ignore_errors=True)
+        return so, written
+
+    def systemd_lines(text):
+        joined, cur = [], None
+        for l in text.split('\n'):
+            if cur is not None:
+                cur = cur + ' ' + l if not l.lstrip().startswith(('#', ';')) else cur + ' '
+                l = cur
+                cur = None
+            if l.endswith('\\'):
+                cur = l[:-1]
+                continue
+            joined.append(l)
+        return joined
+    for sentence, (printed, written) in zip(lcases, e2e.pmap(run_long, lcases)):
+        for what, text in (('--dry-run output', printed), ('service file', written)):
+            res.oracle_evals += 1
+            ex = [l[len('ExecStart='):] for l in systemd_lines(text) if l.startswith('ExecStart=')]
+            b = ctx.model(['spec_split_exec\t' + hx(ex[-1])])[0] if ex else 'none'
+            words = [unhx(t) for t in b[4:-1].split(' ') if t] if b.startswith('ok [') else None
+            if not words or words[-4:] != ['echo', sentence, 'tail', 'a b']:
+                res.oracle_failures.append(dict(op='e2e long line', input=f'Exec=echo "<{len(sentence)} bytes: w0000 w0001 …>" tail "a b"',
+                                                impl_output=f'{what}: last arguments {[w[:30] + "…" + w[-30:] if len(w) > 70 else w for w in (words or [])[-4:]]} (lengths {[len(w) for w in (words or [])[-4:]]})',
+                                                oracle_expectation=f'read as systemd reads the file, ExecStart ends with echo, the {len(sentence)}-byte sentence byte for byte, tail, "a b"'))
     # every command line of one service starts with the same base command (the executable and the global arguments), whatever else the
     # unit holds — in particular whatever [Service] keys of the user's make the converter rewrite entries after a line was stored
     import canon
